@@ -313,6 +313,13 @@ def run_headscache(ck, prop, tier, n_sim):
         ck.inconclusive.append('mutant specification (HeadsCache, read after append) not refuted by TLC: vacuity guard failed')
     sims, _ = vlib.tlc_simulate('MCHeadsCache.tla', hc_cfg('HeadsCache.sim.cfg', True, invs='Durable'), prop + '-hc-sim', n_sim, 14, SEED * 11 + 3)
     bs += sims
+    lcfg = hc_cfg('HeadsCache.loads.cfg', True, invs='Durable')
+    lsims, _ = vlib.tlc_simulate('MCHeadsCache.tla', (lcfg[0], lcfg[1].replace('SPECIFICATION Spec', 'SPECIFICATION LoadsSpec')),
+                                 prop + '-hc-loads', max(6, n_sim // 3), 14, SEED * 17 + 5)
+    for b in lsims:
+        for st in b['steps']:
+            st['action'] = {'LWrite': 'Write', 'LReplicate': 'Replicate', 'LLoadFull': 'LoadFull', 'LLoadLimited': 'LoadLimited', 'LStop': 'Stop'}.get(st['action'], st['action'])
+    bs += lsims
     for b in bs:
         acts = [s['action'] for s in b['steps']]
         # non-trivial: something happens between a reopening and the next full load, or a limited load is followed by a put of the cache
